@@ -4,7 +4,7 @@
 # /tmp/mx (so that /repo and /verif stay free), removed at the end.  Output: .build/seed_matrix.log
 N=${1:-4}
 rm -rf /tmp/mx; mkdir -p /tmp/mx
-seeds=($(ls /verif/seeded | grep -E "${MX_FILTER:-.}"))
+seeds=($(ls /verif/seeded | grep -E -- "${MX_FILTER:-.}"))
 for w in $(seq 0 $((N-1))); do
   (
     root=/tmp/mx/w$w; mkdir -p $root
